@@ -316,6 +316,11 @@ func report(p *Prog, prop, tier string, seed int, results []*FuncResult, loadT, 
 			}
 		}
 		deadLoopKinds := map[string]bool{}
+		deadBackLoops := map[string]bool{}
+		deadBackBudget := 0
+		if fr.Con != nil {
+			deadBackBudget, _ = strconv.Atoi(fr.Con.Opts["dead_loops"])
+		}
 		for _, o := range fr.Obls {
 			solverTime += o.Time
 			if o.Expect == "sat" && strings.HasPrefix(o.Kind, "cover.back") {
@@ -324,6 +329,14 @@ func report(p *Prog, prop, tier string, seed int, results []*FuncResult, loadT, 
 				if o.Status != "unsat" || backSat[o.Kind] || deadLoopKinds["cover.loop"+ord] {
 					coversOK++
 				} else if fr.Con != nil && fr.Con.Opts["dead_backedges"] != "" {
+					coversOK++
+				} else if deadBackBudget > 0 || deadBackLoops[ord] {
+					// a loop declared dead (opt dead_loops=N) whose head cover merely timed out: its back edges are
+					// still allowed to be unreachable
+					if !deadBackLoops[ord] {
+						deadBackLoops[ord] = true
+						deadBackBudget--
+					}
 					coversOK++
 				} else {
 					vacuous = append(vacuous, o)
@@ -339,6 +352,10 @@ func report(p *Prog, prop, tier string, seed int, results []*FuncResult, loadT, 
 				} else if o.Status == "unsat" && strings.HasPrefix(o.Kind, "cover.loop") && deadLoops > 0 {
 					deadLoops--
 					deadLoopKinds[o.Kind] = true
+					if ord := strings.TrimPrefix(o.Kind, "cover.loop"); !deadBackLoops[ord] {
+						deadBackLoops[ord] = true
+						deadBackBudget--
+					}
 					coversOK++
 				} else if o.Status == "unsat" {
 					vacuous = append(vacuous, o)
